@@ -76,6 +76,7 @@ type cnode struct {
 	*node
 	idx       int
 	crashed   bool
+	frozen    bool // crashed by freezing: streams are still accepted, never answered
 	left      bool
 	probeBusy bool
 	probePend bool
@@ -278,6 +279,12 @@ func (c *cluster) onDial(from *cnode, a ml.Address, d time.Duration) (net.Conn, 
 	to := c.byAdr[a.Addr]
 	refuse := func() (net.Conn, error) {
 		return nil, &net.OpError{Op: "dial", Net: "tcp", Err: fmt.Errorf("connection refused")}
+	}
+	if to != nil && to.crashed && to.frozen && !c.stopped && !from.crashed {
+		// a frozen host: the connection is accepted by its kernel but nobody ever answers
+		c1, c2 := simPipe(from.Addr, to.Addr)
+		c.b.conns = append(c.b.conns, c1, c2)
+		return c1, nil
 	}
 	if c.stopped || from.crashed || to == nil || to.crashed || (c.part != nil && c.part(from.idx, to.idx)) {
 		return refuse()
